@@ -485,7 +485,7 @@ class Gen:
             self.o.nl()
 
     # ---------------------------------------------------------------- Python
-    def py_params(self, own):
+    def py_params(self, own, indent=""):
         n = self.r.choice([0, 1, 1, 2, 3])
         ps = []
         for i in range(n):
@@ -507,7 +507,7 @@ class Gen:
             self.o.code("(", own)
             for i, p in enumerate(ps):
                 self.o.nl()
-                self.o.ws(" " * self.r.choice([8, 12, 20]))
+                self.o.ws(indent + " " * self.r.choice([1, 4, 8, 13]))   # deeper than the def keyword
                 self.o.code(p + ("," if i < len(ps) - 1 else ""), own)
             self.o.code(")", own)
         else:
@@ -533,7 +533,7 @@ class Gen:
         self.o.code("def", own, header_of=fid)
         self.o.ws(" ")
         self.o.code(nm, own)
-        self.py_params(own)
+        self.py_params(own, indent)
         if self.r.random() < 0.3:
             self.o.ws(" ")
             self.o.code("-> " + self.r.choice(["int", "None", "List[int]"]), own)
@@ -562,11 +562,14 @@ class Gen:
             self.o.code("b)", owners)
             self.features.add("multiline-stmt")
         elif k < 0.84:
-            self.o.code("total = 1 + \\\n" + indent + "    2", owners)
+            self.o.code("total = 1 + \\", owners)
+            self.o.nl()
+            self.o.ws(indent + "    ")
+            self.o.code("2", owners)
             self.features.add("line-continuation")
         elif k < 0.9 and self.opts["strings"]:
-            self.o.code('doc = """first\n  second ( {\nthird"""', owners)
-            self.features.add("multiline-string")
+            self.o.code('doc = """one-line docstring with ( { and def f():"""', owners)
+            self.features.add("triple-quoted-string")
         else:
             self.o.code("return x", owners)
         self.trailing()
